@@ -238,3 +238,11 @@ Example C15_pipeline_nonvacuous :
                (join_sp (repeat (nth 0 bip39_words []) 12)) 2 3 [] 0 5 (repeatz 3 12) = Ok ms /\
              length ms = 3%nat.
 Proof. eexists. split; [vm_compute; reflexivity | reflexivity]. Qed.
+
+(* The constants written in the model are the constants of the SOURCE: coq/Generated/SrcConsts.v is regenerated
+   from /repo/buidl/*.py by harness/gen_coq_consts.py on every run; the statements are spelled out in
+   Proofs/ConstsTie.v (rs1024_is_source_stmt). *)
+From V Require Proofs.ConstsTie.
+Theorem C15_constants_match_source : ConstsTie.rs1024_is_source_stmt.
+Proof. exact ConstsTie.rs1024_is_source. Qed.
+Print Assumptions C15_constants_match_source.
